@@ -182,7 +182,7 @@ func checkC14(c *Ctx) {
 			c.ok("C14.b", key, a.ins.Pos(), "holds "+short(g.class)+" (class level)")
 		case sameStruct && a.held["~"+g.class] != "":
 			c.ok("C14.b", key, a.ins.Pos(), "holds "+short(g.class)+" (held by every caller; instance not tracked across the call)")
-		case isFreshLocal(a.base):
+		case isFreshLocal(a.base) || a.held["~fresh"] != "":
 			c.okTrivial("C14.b", key, a.ins.Pos(), "object under construction, not yet shared")
 		default:
 			// read confined to the serving goroutine of a field only it writes
@@ -206,7 +206,7 @@ func checkC14(c *Ctx) {
 			// holds at least one lock of W (a writer excludes it)
 			var W map[string]bool
 			for _, o := range byField[a.field] {
-				if !o.write || isFreshLocal(o.base) {
+				if !o.write || isFreshLocal(o.base) || o.held["~fresh"] != "" {
 					continue
 				}
 				cl := map[string]bool{}
